@@ -85,7 +85,7 @@ pub struct Meta {
 fn meta_checksum(b: &[u8]) -> u32 {
     // signature, version, counters, sizes, times, then the reserved area after the
     // checksum words (generation onwards). Bytes 12..16 are padding and not covered.
-    crc32c(&[&b[0..8], &b[8..12], &b[16..64], &b[64 + 12..136]])
+    crc32c(&[&b[0..8], &b[8..12], &b[16..64], &b[76..132]])
 }
 
 pub fn encode_meta(m: &Meta) -> Vec<u8> {
